@@ -34,8 +34,8 @@ def universes(tier, seed):
         out.append(("F3c", [("idx", 3, i) for i in U.F3_indices(True)]))
         out.append((f"MAA3[{seed % 128}/128]", [("idx", 3, i) for i in U.shard(U.catalogue("maa"), seed, 128)]))
     else:
-        out.append(("F3", [("idx", 3, i) for i in U.F3_indices(False)]))
-        out.append((f"MAA3[{seed % 8}/8]", [("idx", 3, i) for i in U.shard(U.catalogue("maa"), seed, 8)]))
+        out.append(("F3c", [("idx", 3, i) for i in U.F3_indices(True)]))
+        out.append((f"MAA3[{seed % 16}/16]", [("idx", 3, i) for i in U.shard(U.catalogue("maa"), seed, 16)]))
         out.append(("P4c", [("p4", a, b) for a, b in U.P4_pairs(True)]))
     return out
 
@@ -46,9 +46,9 @@ def plan(tier, seed):
     for name, specs in us:
         hist_depth = 0
         if name in ("K", "U1"):
-            hist_depth = 2 if tier == "quick" else 3
+            hist_depth = 2
         elif name == "U2":
-            hist_depth = 1 if tier == "quick" else 3
+            hist_depth = 1 if tier == "quick" else 2
         elif name in ("F3c", "I3") and tier != "quick":
             hist_depth = 1
         size = 4 if hist_depth else 60
@@ -66,7 +66,7 @@ def plan(tier, seed):
         "units": units, "universes": {n: len(s) for n, s in us},
         "bounds": {"complete_strategies": len(COMPLETE), "partial": PARTIAL, "size_limits": "1..|full diagram|", "partial_grid_shard": "quick: F3c 1/4, KxK 1/2, I3 1/2 selected by VERIF_SEED; others all",
                    "completions": ["skip_remaining", "skip_to_minimal on every stub until none left"],
-                   "prefix_history_depth": {"K,U1": 2 if tier == "quick" else 3, "U2": 1 if tier == "quick" else 3, "F3c,I3": 0 if tier == "quick" else 1}},
+                   "prefix_history_depth": {"K,U1": 2, "U2": 1 if tier == "quick" else 2, "F3c,I3": 0 if tier == "quick" else 1}},
         "rule": "network x (15 complete strategy/option variants | 7 partial strategies x every size limit x 2 skip "
                 "completions | every state reachable by plain-alphabet histories up to the depth bound x 5 resumable "
                 "strategies); non-trivial = distinct network with >= 2 minimal trap spaces",
